@@ -1,4 +1,4 @@
-import Rngs.Model.Xoshiro
+import Rngs.Lib.CheckedLemmas
+import Rngs.Checked.RandCore
 namespace Rngs.C14
-theorem placeholder : True := trivial
 end Rngs.C14
